@@ -29,7 +29,8 @@ LEVEL_NOTE = ("Trusted: Coq kernel, extraction, the Go harness (schema/value gen
               "model of bindnode (tied by the differential run only). Schemas are finite trees (no cyclic types), map "
               "keys are strings, implicit values and custom converters are not modelled. Generated code: a share of the values runs on a freshly generated package (records valg).")
 TRUSTED = ["bindnode (node.go, repr.go, infer.go) and the schema DSL/compiler: hand-modelled in coq/Schema/Sem.v; tied by correspondence only",
-           "dag-cbor codec: coq/Codec/Cbor.v (C02/C03); C08_bytes is stated over any codec with the round-trip law"]
+           "dag-cbor codec: coq/Codec/Cbor.v (C02/C03); C08_bytes is stated over any codec with the round-trip law",
+           "C08_bytes_dagjson: premises A1, A2 (strconv / refmt emitFloat float text) and CID (cid.Decode inverts Cid.String()) are hypotheses of the statement (coq/Proofs/JsonMain.v), sampled on the real code by ./check C04"]
 RULE = ("random well-formed schemas (all struct/union/enum strategies, nullable/optional, depth <= 4) x 12 values "
         "generated from the type, plus a fixed corpus of witnesses; distinct = distinct (schema, value); "
         "non-trivial = schema text longer than 8 characters")
